@@ -224,7 +224,7 @@ PROPS = {
         "budget": {"quick": 60, "thorough": 900},
         "rule": "one run = a random non-empty subset of 9 entry-point families (tree, acl, kv, diff, handshake, payload, crypto, encoding, pubsub) and 20-120 steps; a step is honest progress (the honest peer edits the tree incl. snapshots and encrypted content; the owner or a joining account appends the next valid ACL record; index grows) or one hostile delivery guarded by the three oracles. "
                 "Hostile inputs are derived from the valid message for the victim's current state by a type-independent protobuf wire mutator (field removed / duplicated / reordered / renumbered, wire type changed, varint zero / extreme / bit flip, byte string emptied / shortened to 1-40 bytes / replaced by 1,31,32,33,64,200 random bytes, length prefix edited to +-1, +100, 0, 2^20, 2^31, 2^32-1, 2^62, truncation anywhere, field spliced from another message of the same world, raw bit flips / random bytes / duplicated segments) "
-                "applied at every nesting level: sync envelope, tree message, change envelope, signed change content (then signed again by owner, writer or reader so that it passes the signature check), ACL record envelope, signed record, ACL content incl. encrypted read keys and invite keys (signed again by owner or member), key-value envelope and signed inner value, head-sync request, handshake frame payloads and headers (types 0-4, sizes 0..2^32-1, cut frames), space header / ACL root / settings root, key and ciphertext blobs, encoded rpc frames incl. snappy blocks that claim 2^20..2^32-1 decoded bytes, pubsub frames; "
+                "applied at every nesting level: sync envelope, tree message, change envelope, signed change content (then signed again by owner, writer or reader so that it passes the signature check), ACL record envelope, signed record, ACL content incl. encrypted read keys and invite keys (signed again by owner or member), key-value envelope and signed inner value, head-sync request, handshake frame payloads and headers (types 0-4, sizes 0..2^29, cut frames), space header / ACL root / settings root, key and ciphertext blobs, encoded rpc frames incl. snappy blocks that claim 2^20..2^29 decoded bytes, pubsub frames; "
                 "plus reference edits on changes (0-3 arbitrary parents incl. trimmed, unknown and odd ids, duplicated parents, re-pointed snapshot base, flipped snapshot flag, replaced ACL head / read key id, attachment to the root after snapshots) and on records (previous id replaced), arbitrary heads and snapshot paths, a whole hostile tree offered for creation, and an ldiff remote that lies. "
                 "Oracles per delivery: no panic (recover; panics in goroutines of the code under test kill the worker and are classified by the driver), the call returns (real-time watchdog outside the bubble, 20 s; fake-clock deadlines for blocking reads; 5000-request and 10000-response caps), bytes allocated during the call <= 48 MiB + 512 x input size (runtime.MemStats.TotalAlloc delta). evaluations = guarded deliveries.",
         "assumptions": COMMON_ASSUMPTIONS + ["the coverage-guided byte-string half of the quantifier is fuzzing and outside this technique: inputs here are corruptions of traffic the simulated system itself produced in states it reached",
